@@ -214,8 +214,11 @@ def run_history(form, maxsize, typed, kind, flavour, ops, which):
             except BaseException as e:  # noqa
                 obs.append(("error", type(e).__name__, str(e)))
         elif op[0] == "clear":
-            t.cache_clear()
-            obs.append(("done",))
+            try:
+                t.cache_clear()
+                obs.append(("done",))
+            except BaseException as e:  # noqa
+                obs.append(("error", "cache_clear raised " + type(e).__name__, str(e)))
         elif op[0] == "info":
             i = t.cache_info()
             obs.append(("info", i.hits, i.misses, i.maxsize, i.currsize))
@@ -223,9 +226,12 @@ def run_history(form, maxsize, typed, kind, flavour, ops, which):
             if p["maxsize"] != i.maxsize or p["typed"] != bool(typed if form not in ("bare", "cache") else False):
                 obs.append(("error", "cache_parameters", repr(p)))
         elif op[0] == "discard":
-            if flavour == "async":
-                t.cache_discard(*op[1], **dict(op[2]))
-            obs.append(("done",))
+            try:
+                if flavour == "async":
+                    t.cache_discard(*op[1], **dict(op[2]))
+                obs.append(("done",))
+            except BaseException as e:  # noqa  (discarding never fails, whether or not the pattern is cached)
+                obs.append(("error", "cache_discard raised " + type(e).__name__, str(e)))
     return obs
 
 
@@ -396,6 +402,53 @@ def run(tier, seed):
             rep.violation("lru:model-mismatch", {"broken": "correspondence impl<->Model/Lru.v l_run (or functools<->f_run)", "case": sh[j][:3000]}, no_input=not rep.has_failing_input())
     rep.cov["traces_validated_against_impl"] = len(texts)
     rep.notes["model_mismatches"] = mism
+    # bound methods are values: one obtained from an instance and kept stays bound to that instance whatever is looked up
+    # later (another instance, the class, the same instance again); compared with functools.lru_cache
+    for maxsize in (None, 2, 128):
+        def kept(lib):
+            calls = []
+            if lib == "asl":
+                class C:
+                    def __init__(self, tag):
+                        self.tag = tag
+
+                    @a.lru_cache(maxsize=maxsize)
+                    async def m(self, x):
+                        calls.append((self.tag, x))
+                        return (self.tag, x)
+                run = drive
+            else:
+                class C:
+                    def __init__(self, tag):
+                        self.tag = tag
+
+                    @functools.lru_cache(maxsize=maxsize)
+                    def m(self, x):
+                        calls.append((self.tag, x))
+                        return (self.tag, x)
+
+                def run(v):
+                    return v
+            p_, q_ = C("p"), C("q")
+            mp = p_.m
+            mq = q_.m
+            mp2 = p_.m
+            out = [run(mp(1)), run(mq(1)), run(mp(1)), run(mp2(2)), run(mq(2)), run(mp(2))]
+            unbound = C.m
+            out.append(run(unbound(q_, 3)))
+            out.append(run(mp(3)))
+            info = tuple(C.m.cache_info())
+            return out, list(calls), info, mp is not mq
+        try:
+            ra = kept("asl")
+        except BaseException as e:  # noqa
+            ra = "raised %s: %s" % (type(e).__name__, e)
+        rs = kept("std")
+        rep.count(("kept-bound-methods", maxsize), True)
+        if ra != rs:
+            fails_n += 1
+            rep.violation("lru:bound-methods", {"maxsize": maxsize, "why": "bound methods of two instances obtained first and called later, interleaved (results, invocations, cache_info, distinct objects): "
+                                                "asyncstdlib %r functools %r" % (ra, rs)})
     if not proofs_ok:
         rep.violation("proof-broken", {"broken": rep.notes.get("broken_file", "?"), "log": rep.notes.get("build_log_tail", "")[-1500:]}, no_input=True)
     return rep.finish()
